@@ -499,18 +499,30 @@ def q_psd(ctx):
         if isinstance(n, ast.Call) and norm_text(n.func) == f.name and len(n.args) >= 4:
             loop = [s for s in fb.node.body if isinstance(s, ast.While)][0]
             stt = [s for s in loop.body if any(x is n for x in ast.walk(s))][0]
-            c2 = Closure(fb, stop={'time', 'integrator'})
+            integ = None
+            for a_ in ast.walk(fb.node):
+                if isinstance(a_, ast.Assign) and isinstance(a_.targets[0], ast.Name) and \
+                        isinstance(a_.value, ast.Call) and fb.module.resolve(
+                            a_.value.func, fb.local_names()) == 'pyins.strapdown.Integrator':
+                    integ = a_.targets[0].id
+            tvar = None
+            for a_ in loop.body:
+                if isinstance(a_, ast.Assign) and isinstance(a_.targets[0], ast.Name) and \
+                        norm_text(a_.value) == '%s.get_time()' % integ:
+                    tvar = a_.targets[0].id
+                    break
+            c2 = Closure(fb, stop={tvar, integ})
             t = c2.text(n.args[3], stt)
-            ok = t == 'integrator.get_time() - time'
+            ok = t == '%s.get_time() - %s' % (integ, tvar)
             ctx.ob('Q-PSD', ok, None, 'feedback: step = integrator time after the batch - time '
                    'before it', f=fb, node=n, key='fb-dt', why='feedback step is `%s`' % t)
             # `time` is read before integrate, get_time() after
             body = loop.body
-            i_int = [i for i, s in enumerate(body) if 'integrator.integrate(' in norm_text(s)]
+            i_int = [i for i, s in enumerate(body) if '%s.integrate(' % integ in norm_text(s)]
             i_dt = [i for i, s in enumerate(body) if isinstance(s, ast.Assign) and
                     norm_text(s.targets[0]) == norm_text(n.args[3])]
             i_tm = [i for i, s in enumerate(body) if isinstance(s, ast.Assign) and
-                    norm_text(s.targets[0]) == 'time']
+                    norm_text(s.targets[0]) == tvar]
             ok = bool(i_int and i_dt and i_tm) and i_tm[0] < i_int[0] < i_dt[0]
             ctx.ob('Q-PSD', ok, None, 'feedback: start time read before, end time after the '
                    'integration of the batch', f=fb, node=n, key='fb-order',
